@@ -8,7 +8,7 @@ INFO = {
                    "of_set_available_symbols in increasing / decreasing / shuffled order and with different ML injection orders, of_finish_decoding "
                    "makes all k sources available <=> the columns of H of the symbols not received are linearly independent (spec_full_rank), "
                    "leaves decoding incomplete otherwise, and every available source equals the encoded one for all source data (symbolic)",
-    "assumptions": ["BOUNDED: k + (n-k) <= 9 (quick: two codes; thorough: eight codes), symbol length 1 byte (byte positions are independent in every kernel: C13)",
+    "assumptions": ["BOUNDED: k + (n-k) <= 9 (quick: three codes incl. one with even N1 and extra entries; thorough: nine codes), symbol length 1 byte (byte positions are independent in every kernel: C13)",
                     "the matrix construction is replaced by a stub that builds the constant matrix through the real of_mod2sparse_insert (which matrix the construction returns is C05's subject)",
                     "libc rand() (ML injection order of repair symbols) is a constant sequence per run; a few sequences are tried",
                     "outcome independent of order/API is decided only through the enumerated (subset, order, API) instances all agreeing with the set-only specification"],
